@@ -193,12 +193,24 @@ def run(model, col, tier):
                   f"`{unparse(rif3.test)}` rejects {[k for k, v in res.items() if v]} and accepts {[k for k, v in res.items() if not v]}; only int and uint may index", IDX, rif3)
         col.check(clears_flag(rif3.body), "R13.3", f"{IDX}::_ValidateArrayExpression clears the flag", "the rejecting branch sets valid = False", "the rejecting branch does not clear `valid`", IDX, rif3)
         col.check(tname is not None, "R13.3", f"{IDX}::_ValidateArrayExpression inspects the index", "the type tested is that of the index expression", "the type tested is not the index expression's type", IDX, f3)
+    arr_cls = model.cls(ASTF, "ArrayExpression")
     for rel, vis in ((OOB, oob), (IDX, idx)):
-        h = vis.own_method("v_Expression")
-        g = [n for n in ast.walk(h) if isinstance(n, ast.If) and "isinstance" in unparse(n.test) and "ArrayExpression" in unparse(n.test)]
-        calls_v = [c for n in g for c in ast.walk(n) if isinstance(c, ast.Call) and last_attr(c) == "_ValidateArrayExpression"]
-        col.check(bool(calls_v) and not isinstance(g[0].test, ast.BoolOp), "R13.3" if rel == IDX else "R13.1", f"{rel}::v_Expression checks every ArrayExpression",
-                  "every ArrayExpression reaches _ValidateArrayExpression", "not every ArrayExpression is handed to _ValidateArrayExpression", rel, h)
+        kind, owner, h, base = D.resolve(vis, arr_cls)
+        rule_ = "R13.3" if rel == IDX else "R13.1"
+        if kind != "explicit":
+            col.bad(rule_, f"{rel}::handler for ArrayExpression", "ArrayExpression resolves to default traversal: no array access is ever validated", rel, vis.node)
+            continue
+        calls_v = [c for c in ast.walk(h) if isinstance(c, ast.Call) and last_attr(c) == "_ValidateArrayExpression"]
+        good = bool(calls_v)
+        if base is not None and base.name != "ArrayExpression":
+            # generic handler: the call must be guarded by exactly `isinstance(node, ArrayExpression)`
+            g = [n for n in ast.walk(h) if isinstance(n, ast.If) and any(x is calls_v[0] for s in n.body for x in ast.walk(s))] if calls_v else []
+            good = good and bool(g) and isinstance(g[0].test, ast.Call) and "ArrayExpression" in unparse(g[0].test)
+        else:
+            g = [n for n in ast.walk(h) if isinstance(n, ast.If) and calls_v and any(x is calls_v[0] for s in n.body for x in ast.walk(s))]
+            good = good and not g
+        col.check(good, rule_, f"{rel}::handler for ArrayExpression checks every ArrayExpression",
+                  f"every ArrayExpression reaches _ValidateArrayExpression ({owner.name}.{h.name})", "not every ArrayExpression is handed to _ValidateArrayExpression", rel, h)
     # ---------------- R13.4 swizzle ----------------------------------------------
     sv = model.cls(SWZ, "ValidateSwizzleMaskVisitor")
     h = sv.own_method("v_MemberAccessExpression")
@@ -232,9 +244,21 @@ def run(model, col, tier):
             if "GetComponentCount" in t:
                 col.check(("IsVector" in t and " 1" in t) or "IsScalar" in t, "R13.4", f"{SWZ}::v_MemberAccessExpression scalar count",
                           "a scalar parent counts as one component", "the count expression does not treat a scalar parent as one component", SWZ, c)
-        gt = [n for n in ast.walk(h) if isinstance(n, ast.If) and any(x is c for x in ast.walk(n))]
+        gt = [n for n in ast.walk(h) if isinstance(n, ast.If) and any(x is c for s in n.body for x in ast.walk(s))]
         col.check(any("IsVector" in unparse(n.test) and "IsScalar" in unparse(n.test) for n in gt), "R13.4", f"{SWZ}::v_MemberAccessExpression applies to vectors and scalars",
                   "masks on vector and scalar parents are validated", "the validation is not applied to both vector and scalar parents", SWZ, h)
+        # whether a mask is validated may depend on the parent's type only (no visitor state, no cache)
+        tvars = {n.targets[0].id for n in ast.walk(h) if isinstance(n, ast.Assign) and isinstance(n.targets[0], ast.Name) and "GetParent().GetType()" in unparse(n.value)}
+        impure = []
+        for n in gt:
+            for x in ast.walk(n.test):
+                if isinstance(x, ast.Name) and x.id not in tvars and x.id not in ("isinstance", "types", "nsl"):
+                    impure.append(x.id)
+                if isinstance(x, ast.Attribute) and isinstance(x.value, ast.Name) and x.value.id == "self":
+                    impure.append("self." + x.attr)
+        col.check(not impure, "R13.4", f"{SWZ}::v_MemberAccessExpression validates every swizzle",
+                  "whether a mask is validated depends only on the type of the swizzled expression",
+                  f"the validation is skipped depending on {sorted(set(impure))}: a mask accepted once (e.g. on a wider vector) is not checked again on another type", SWZ, h)
     # the helper: alphabet, mixing, count
     alpha_ok = False
     mix_ok = False
@@ -386,7 +410,20 @@ def run(model, col, tier):
                     continue
                 total += 1
                 cs = calls_on_path(evs)
-                if not any(last_attr(c) == "AcceptVisitor" and isinstance(c.func.value, ast.Name) and c.func.value.id == nodep for c in cs):
+                full = any(last_attr(c) == "AcceptVisitor" and isinstance(c.func.value, ast.Name) and c.func.value.id == nodep for c in cs)
+                if not full:
+                    # alternatively every child getter is dispatched: v_Visit(node.GetX(), ..) for all traversed fields
+                    visited = {unparse(c.args[0]) for c in cs if last_attr(c) in ("v_Visit", "v_Generic", "Visit") and c.args}
+                    need = set()
+                    for cn in classes:
+                        ci_ = model.cls(ASTF, cn)
+                        flds = {f_ for f_, g in D.traversed_fields(ci_)}
+                        for gname, gm in [(k, v) for c_ in ci_.mro for k, v in c_.methods.items()]:
+                            rets_ = [r.value for r in ast.walk(gm) if isinstance(r, ast.Return) and isinstance(r.value, ast.Attribute)]
+                            if len(rets_) == 1 and rets_[0].attr in {f_.split("__")[-1] if f_.startswith("_") and "__" in f_ else f_ for f_ in flds} | flds:
+                                need.add(f"{nodep}.{gname}()")
+                    full = bool(need) and need <= visited and len(classes) == 1
+                if not full:
                     incomplete += 1
             col.check(incomplete == 0, "R13.7", f"{rel}::{vis.name}.{hname} keeps traversing",
                       f"handler for {classes[:4]}{'...' if len(classes) > 4 else ''} traverses all children on every path",
